@@ -1143,6 +1143,16 @@ def single_dispatch_entry(prog, chk):
             continue
         n += 1
         callers = sorted(prog.bodies[x].path for x in rev[b.id])
+        # the dispatch may sit in a closure of the dispatcher that a scope guard runs behind inc_depth()?
+        gd_ = prog.body(GEN_)
+        inc_ = R.calls_to(gd_, R.path_is("svgdx::context::TransformerContext::inc_depth"))
+        if inc_:
+            brk_ = R.try_break_edges(gd_, inc_[0][1]["dest"][0])
+            cont_ = [tgt for v, tgt in gd_.term(brk_[0][0])["vals"] if v == 0] if brk_ else []
+            from props import C01_rec as _rec
+            for cb_ in prog.closures_of(gd_):
+                if cb_.path in callers and cont_ and _rec.closure_runs_under(prog, gd_, cb_, cont_[0]):
+                    callers = sorted(set(GEN_ if x == cb_.path else x for x in callers))
         chk.ob(callers == [GEN_], "A5.depth-entry", b.short.split(" as ")[0].lstrip("<"), b.where(), f"{b.short.split(' as ')[0].lstrip('<')} is processed only through the depth-counting dispatcher", f"{b.short} is also called from {[c for c in callers if c != GEN_]}: elements of that kind reach their handler without passing inc_depth(), so they are not counted against depth_limit (accepted at depth limit+1)")
     chk.floor("A5.depth-entry", n, 11, "element-specific generate_events implementation")
 
